@@ -153,8 +153,10 @@ func runTagKeep(c *core.Ctx) {
 			return false
 		}
 		// requestedTag: v is "" or the ref-name annotation of a (non-receiver) parameter on every path
-		var requestedTag func(v ssa.Value, seen map[ssa.Value]bool) bool
-		requestedTag = func(v ssa.Value, seen map[ssa.Value]bool) bool {
+		// (isReq decides which parameter of the frame the value lives in is ‘the requested descriptor’: in fn a
+		// non-receiver parameter; in an accessor of the package called on that descriptor, the parameter it is passed as)
+		var requestedTagIn func(v ssa.Value, seen map[ssa.Value]bool, isReq func(*ssa.Parameter) bool, depth int) bool
+		requestedTagIn = func(v ssa.Value, seen map[ssa.Value]bool, isReq func(*ssa.Parameter) bool, depth int) bool {
 			v = an.Strip(v)
 			if seen[v] {
 				return true
@@ -166,7 +168,7 @@ func runTagKeep(c *core.Ctx) {
 				return ok && s == ""
 			case *ssa.Phi:
 				for _, e := range x.Edges {
-					if !requestedTag(e, seen) {
+					if !requestedTagIn(e, seen, isReq, depth) {
 						return false
 					}
 				}
@@ -178,9 +180,43 @@ func runTagKeep(c *core.Ctx) {
 				}
 				root, pth := accessPath(an.Strip(x.X))
 				p, isParam := root.(*ssa.Parameter)
-				return isParam && p != recv && pathEq(pth, "Annotations")
+				return isParam && isReq(p) && pathEq(pth, "Annotations")
+			case *ssa.Extract, *ssa.Call:
+				// an accessor of the package applied to the requested descriptor: (tag, subject) := d.refAnnotations()
+				if depth > 2 {
+					return false
+				}
+				hr := an.HelperReturns(v, func(h *ssa.Function) bool { return core.FuncPkgPath(h) == core.FuncPkgPath(fn) })
+				if len(hr) == 0 {
+					return false
+				}
+				for _, r := range hr {
+					r := r
+					inner := func(q *ssa.Parameter) bool {
+						for i, hp := range r.Callee.Params {
+							if hp == q && i < len(r.Call.Call.Args) {
+								root, pth := accessPath(an.Strip(r.Call.Call.Args[i]))
+								if al, isAlloc := root.(*ssa.Alloc); isAlloc {
+									if st := an.SingleStore(al); st != nil {
+										root = an.Strip(st)
+									}
+								}
+								op, isParam := root.(*ssa.Parameter)
+								return isParam && len(pth) == 0 && isReq(op)
+							}
+						}
+						return false
+					}
+					if !requestedTagIn(r.Val, map[ssa.Value]bool{}, inner, depth+1) {
+						return false
+					}
+				}
+				return true
 			}
 			return false
+		}
+		requestedTag := func(v ssa.Value, seen map[ssa.Value]bool) bool {
+			return requestedTagIn(v, seen, func(p *ssa.Parameter) bool { return p != recv }, 0)
 		}
 		type site struct {
 			kind  string
